@@ -499,3 +499,21 @@ def _covered(r):
     import re
     return {m.group(1) for m in re.finditer(r"^<(\w+) line \d+, col \d+ to line \d+, col \d+ of module \w+>: (\d+):(\d+)$", r.stdout, re.M)
             if int(m.group(3)) > 0}
+
+
+def replay(run, path, behaviours):
+    body = json.load(open(path))
+    head = body["trace"][0]
+    run.tier, run.seed = body.get("tier", run.tier), int(body.get("seed", run.seed))
+    behs = behaviours(run)
+    idx = head["idx"]
+    if idx >= len(behs) or behs[idx]["tag"] != head["tag"]:
+        raise vlib.InfraError("replay %s: behaviour %s (%s) cannot be regenerated from tier=%s seed=%s" % (path, idx, head["tag"], run.tier, run.seed))
+    b = dict(behs[idx], idx=0)
+    files = record(run, [b], prefix="replay", procs=1)
+    info, total = scan(files, 1)
+    run.note_case(json.dumps([b["cfg"], b["steps"]], sort_keys=True), True)
+    run.note_case("replay", True)
+    validate(run, files)
+    run.samples = [{"tag": b["tag"], "cfg": b["cfg"], "steps": b["steps"]}]
+    run.extra_cov["guarded_event_counts"] = dict(total)
